@@ -14,7 +14,7 @@ RULE = ("cases: the two registration tables (_HANDLED_FUNCTIONS, _HANDLED_SECOND
         "(torch.f(tensor, op) and tensor <binop> op), repeated with fresh seeds; plus a sample of unregistered torch functions. oracle: "
         "torch.f(op, ...) (densified / in canonical form for factorizations) equals op.method(...) and equals torch.f on the dense "
         "operands (order and sign for the reflected forms); unregistered functions raise NotImplementedError; explicit not-supported "
-        "errors accepted when the method itself raises the same. tensor-first forms use matrix and 1-D left operands. distinct key = (function, class, operand kind, order) [added: per-matrix constants (*b,1,1) with full / leading-only / trailing-only batch shapes and 2-d batches for mul / div; entrywise functions (exp, log, sqrt, abs) also judged on the diagonal alone] [round 5: isclose cells draw keyword variants (atol, rtol = atol = 0, equal_nan=True with NaNs at matching positions of a dense operator)]")
+        "errors accepted when the method itself raises the same. tensor-first forms use matrix and 1-D left operands. distinct key = (function, class, operand kind, order) [added: per-matrix constants (*b,1,1) with full / leading-only / trailing-only batch shapes and 2-d batches for mul / div; entrywise functions (exp, log, sqrt, abs) also judged on the diagonal alone] [round 5: isclose cells draw keyword variants (atol, rtol = atol = 0, equal_nan=True with NaNs at matching positions of a dense operator)] [round 6: half of the operator second operands are structured zoo operators (class pairs with fast paths drawn preferentially); torch.add / torch.sub alpha variants in first- and second-argument position]")
 ASSUMPTIONS = ["torch.f on dense tensors is the specification", "canonical forms: Cholesky factor via L L^T, eigh via Q diag(w) Q^T, svd via U S V^T, eigvalsh sorted"]
 REQUIRED_STATS = ("dispatches",)
 
